@@ -148,8 +148,9 @@ PrevAuto ==
 GrowTo(ns) ==
   /\ \A i \in DOMAIN stored : \E j \in DOMAIN ns : ns[j] = stored[i]
   /\ stored' = ns
-  /\ LET keep == \/ run = "first" /\ ReadIn(ns, bounds[1], view[2]) = acc
-                  \/ run = "last" /\ ReadIn(ns, view[1], bounds[2]) = acc
+  /\ LET keep == /\ ~(last \in {"afwd", "abwd"} /\ ~valid)   \* an automatic traversal that had ended is over
+                  /\ \/ (run = "first" /\ ReadIn(ns, bounds[1], view[2]) = acc)
+                     \/ (run = "last" /\ ReadIn(ns, view[1], bounds[2]) = acc)
      IN /\ run' = IF keep THEN run ELSE "off"
         /\ acc' = IF keep THEN acc ELSE <<>>
   /\ UNCHANGED <<chunk, bounds, view, frame, valid, last>>
